@@ -154,6 +154,9 @@ class World:
         if k == "enq":
             s = self.cls(a[1])(self.obj(a[3]), a[2]); s.sid = a[4]; loop.enqueue_signal(s)
         elif k == "reg_source": loop.register_signal_source(self.obj(a[1]))
+        elif k == "reg_handler":
+            # a handler the application registers while the loop is running (an entry of case["handlers"] marked late)
+            h = self.late[a[1]]; loop.register_signal_handler(self.cls(h["cls"]), self.funcs.setdefault(h["hid"], self.mkh(h)), h.get("data"))
         elif k == "new_loop":
             s = self.cls(a[1])(None, a[2]); s.sid = a[3]; loop.execute_new_loop(s); LOG.append(("new<",))
         elif k == "close_loop": loop.close_loop(); LOG.append(("closed<",))
@@ -257,8 +260,9 @@ def run_real(case, loopkind="main"):
             for a in (sc[i] if i < len(sc) else []): W.act(a)
             LOG.append(("h<", hid))
         return f
-    funcs = {}
+    funcs = {}; W.funcs = funcs; W.mkh = mkh; W.late = {h["hid"]: h for h in case.get("handlers", []) if h.get("late")}
     for h in case.get("handlers", []):
+        if h.get("late"): continue          # registered by a reg_handler action
         # two entries with the same handler id register the SAME callback object again (same class, same data): a signal then reaches it twice
         f = funcs.setdefault(h["hid"], mkh(h))
         loop.register_signal_handler(W.cls(h["cls"]), f, h.get("data"))
